@@ -13,7 +13,7 @@ def cubes_ops(tier):
     seqs = ["S", "F", "U", "SX", "SI", "SM", "SXM", "LS"]
     if tier == "quick":
         out = [dict(ops=o, cls=c, prop="C01", _w=len(o)) for o in seqs for c in ("local", "base")]
-        out += [dict(ops="S", cls="local", prop="C01", pre=p) for p in (1, 2)]
+        out += [dict(ops="S", cls="local", prop="C01", pre=p) for p in (1, 2)] + [dict(ops="SX", cls="base", prop="C01", trailing=True, depth=[1, 2, 0])]
         out += [dict(ops="SI", cls="local", prop="C01", names=n, state=True, depth=[1, 2, 2], _w=2) for n in (1, 2)]
         return out
     seqs += ["US", "SIM", "FSX", "UXM", "SXI", "LSM", "SL", "LU"]
